@@ -144,6 +144,17 @@ func joinVal(a, b aval) (aval, bool) {
 	if reflect.DeepEqual(a, b) {
 		return a, true
 	}
+	// now+ttl, saturated at the int64 horizon on one path: still "the new lease end"
+	if ta, ok := a.(avTime); ok {
+		if tb, ok := b.(avTime); ok {
+			if ta.kind == "newUntil" && tb.kind == "horizon" {
+				return ta, true
+			}
+			if ta.kind == "horizon" && tb.kind == "newUntil" {
+				return tb, true
+			}
+		}
+	}
 	switch x := a.(type) {
 	case avMsg:
 		if y, ok := b.(avMsg); ok {
